@@ -79,6 +79,19 @@ func caseVariants(s string, locked []bool, maxAll int, f func(v string) bool) (i
 	return n, false
 }
 
+// c11Hide neutralises the four attribute contexts for any quote-free text that follows it: each
+// of them swallows the text into an unterminated quoted value of a harmless attribute, so
+// IsXSS(c11Hide + s) is decided by the element-content context alone (and prepending '<'-free text
+// does not change that context's verdict).
+const c11Hide = "\"a='b=`c=\""
+
+func evalC11CaseIsolated(w *fw.W, s, aux string) {
+	if strings.ContainsAny(s, "'\"`") {
+		return
+	}
+	evalC11Case(w, c11Hide+s, aux)
+}
+
 func evalC11Case(w *fw.W, s, _ string) {
 	low := asciiLower(s)
 	if s != low {
@@ -160,7 +173,7 @@ func init() {
 	var vectors []string
 	fw.Register(&fw.Check{
 		ID:        "C11",
-		QuickS:    60,
+		QuickS:    100,
 		ThoroughS: 600,
 		Rule: "case: every all-lower-case base string over the HTML alphabets up to the completed level (and the C04 vector set) without `[cdata[`: ALL 2^k case re-assignments when k<=8 letters, " +
 			"else lower/UPPER plus every single and double flip from each; IsXSS must not change. NUL: every base string (any case), every context, every TAG_NAME_OPEN/ATTR_NAME token of the real token stream, " +
@@ -172,13 +185,15 @@ func init() {
 			return nil
 		},
 		Phases: []fw.Phase{
-			{Name: "case-trie-H1", Space: "lower-case strings of H1^<=5 x case assignments", Share: 2,
+			{Name: "case-trie-H1", Space: "lower-case strings of H1^<=5 x case assignments", Share: 4,
 				Run: func(w *fw.W) { w.Trie(alpha.H1, 1, 5) }, Eval: evalC11Case},
+			{Name: "case-trie-H1-data-isolated", Space: "hiding prefix + lower-case quote-free strings of H1^<=5 x case assignments: only the element-content context can fire (quick <=4, thorough <=5)", Share: 3,
+				Run: func(w *fw.W) { w.Trie(alpha.H1, 1, w.Pick(4, 5)) }, Eval: evalC11CaseIsolated},
 			{Name: "case-trie-fragments", Space: "fragment alphabet (H2 + event/URL/scheme/doctype names)^<=3 (quick) / <=4 (thorough) x case assignments", Share: 4,
 				Run: func(w *fw.W) { w.Trie(c11Frag, 1, w.Pick(3, 4)) }, Eval: evalC11Case},
 			{Name: "case-vectors", Space: "every C04 grammar vector x case assignments", Share: 2,
 				Run: func(w *fw.W) { w.Each(len(vectors), func(i int) { w.Item(asciiLower(vectors[i]), "") }) }, Eval: evalC11Case},
-			{Name: "nul-trie-H1", Space: "H1^<=5 x 5 contexts x interior positions of name tokens", Share: 2,
+			{Name: "nul-trie-H1", Space: "H1^<=5 x 5 contexts x interior positions of name tokens", Share: 4,
 				Run: func(w *fw.W) { w.Trie(alpha.H1, 1, 5) }, Eval: evalC11Nul},
 			{Name: "nul-trie-fragments", Space: "fragment alphabet^<=3 (quick) / <=4 (thorough) x 5 contexts x interior positions", Share: 3,
 				Run: func(w *fw.W) { w.Trie(c11Frag, 1, w.Pick(3, 4)) }, Eval: evalC11Nul},
